@@ -16,7 +16,7 @@ from tools.props import c01_gen
 MANIFEST = {
     "level_text": "Coq theorems (Properties/C01.v, no axioms) about a chunk model of the generator (template text with typed holes, every .tera template of both modes transcribed; naming, serde scanners, unraw identifiers, type printer / repaired top-level-comma parser / renderers / repaired array prefixing, Zod schema builder, the ts_key filter): for EVERY byte string the key printed by ts_key is an ECMAScript identifier name (C01_rust_ident_is_ident) or a well-formed quoted literal (C01_key_chunk_ok, C01_member_access_ok), listener names are legal identifiers for every event name, escape_js output is a well-formed literal body for every byte string (validator messages, enum literals), command / type names are legal outside the remaining recorded classes (reserved words, digit-first), and a token-level skeleton theorem for the plain-mode interface template (bare or quoted keys): good holes imply that the specification parser accepts the item and the result is well formed. Tied to the repository on every run: the real CLI generates both modes for adversarial projects; every written file must pass the extracted oracle (parse_module + wf_module_b incl. a statement grammar for function bodies) and equal the model's token stream token for token.",
     "design_ref": "DESIGN.md section 5 C01, section 12",
-    "level_note": "Proved for all inputs: key printing (ts_key) and member access, listener names, escape_js literals, command / type names outside the remaining classes; the type-hole theorem C01_type_hole_render (every TypeStructure with identifier leaves and nesting < 64 renders to tokens that the specification type parser consumes up to any stop token, with a well-formed result; induction over arrays, sets, maps, tuples, options, results); token-level skeleton theorems for the plain interface template on the model's structs with all hole premises discharged (C01_interface_tokens_ok), the enum alias template (C01_enum_alias_ok) and the whole of index.ts (C01_index_tokens_ok). Still partial: the theorems speak about token renderings (struct_toks, rtoks, enum_toks, star_toks); that the lexer turns the model's text into exactly these tokens (C01_lex_compositional_full_statement) is evaluated on every generated case at run time and on samples inside Coq, not proved. Not covered by a skeleton theorem (C01_skeleton_full_statement): params interface (channel members, index signature), the Zod schema templates, wrapper functions with bodies, listeners; the parsed type is proved well formed, not proved to be the intended type (C05). For those the run-time oracle and the token-for-token correspondence decide every generated case. wf_module_b has no separate Prop-level specification (no reflection lemma). The TypeScript grammar subset (Spec/TsLex.v, TsModule.v, C01Wf.v) is a specification written from the language definition; no TypeScript compiler exists in the sandbox. Validator attributes and the event list are observed from the real analysis (public API) and fed to the model (C11/C12's subject).",
+    "level_note": "Proved for all inputs: key printing (ts_key) and member access, listener names, escape_js literals, command / type names outside the remaining classes; the type-hole theorems - token level C01_type_hole_render (every TypeStructure with identifier leaves and nesting < 64 renders to tokens that the specification type parser consumes up to any stop token, with a well-formed result) and TEXT level C01_type_hole_lex / C01_type_hole_text (the specification lexer turns the rendered text into exactly those tokens in front of every admissible continuation, so the boolean hole predicate hole_ok HType holds; built on Proofs/LexFacts.v); token-level skeleton theorems with all hole premises discharged for the plain interface template (C01_interface_tokens_ok), the params interface incl. Channel<T> members and the index signature (C01_params_interface_tokens_ok), the enum alias (C01_enum_alias_ok) and the whole of index.ts (C01_index_tokens_ok). Still partial: for the fixed template text and the name / key / literal holes, that the lexer turns the model's text into the token renderings (C01_lex_compositional_full_statement) is evaluated on every generated case at run time and on samples inside Coq, not proved (for type holes it is proved). Not covered by a skeleton theorem (C01_skeleton_full_statement): the Zod schema templates, wrapper functions with bodies, listeners; the parsed type is proved well formed, not proved to be the intended type (C05). For those the run-time oracle and the token-for-token correspondence decide every generated case. wf_module_b has no separate Prop-level specification (no reflection lemma). Non-ASCII identifier characters are judged by an explicit ID_Start / ID_Continue table (ranges in Spec/C01Wf.v). The TypeScript grammar subset (Spec/TsLex.v, TsModule.v, C01Wf.v) is a specification written from the language definition; no TypeScript compiler exists in the sandbox. Validator attributes and the event list are observed from the real analysis (public API) and fed to the model (C11/C12's subject).",
     "technique": "Rocq/Coq proof over hand-written model + correspondence check (extracted OCaml oracle and model vs real CLI binary and Rust harness)"
 }
 
